@@ -61,6 +61,7 @@ func ruleFloat(c *Ctx) {
 		}
 	}
 	ruleFloatRefusal(c)
+	ruleFloatText(c)
 	c.MinInstances("FLOAT/conversions", nconv, 2)
 	c.MinInstances("FLOAT/scalings", nscale, 4)
 }
@@ -421,4 +422,65 @@ func ruleFloatRefusal(c *Ctx) {
 		}
 	}
 	c.MinInstances("FLOAT/refusal", n, 2)
+}
+
+// ruleFloatText (FLOAT/text): the text form of an amount in a JSON document is encoding/json's own rendering and
+// parsing of a float64 (shortest text that reads back to the same float64 - the premise of "1e8 scaling and
+// rounding is exact"). A float-valued field of a struct with json tags whose type brings its own
+// MarshalJSON / MarshalText / UnmarshalJSON / UnmarshalText replaces that rendering by hand-written formatting
+// whose exactness is a numeric fact this rule cannot decide.
+func ruleFloatText(c *Ctx) {
+	n := 0
+	for _, pk := range c.P.ScopePkgs() {
+		sc := pk.Types.Scope()
+		for _, name := range sc.Names() {
+			tn, ok := sc.Lookup(name).(*types.TypeName)
+			if !ok {
+				continue
+			}
+			var walk func(t types.Type, label string, depth int)
+			walk = func(t types.Type, label string, depth int) {
+				st, ok := t.Underlying().(*types.Struct)
+				if !ok || depth > 3 {
+					return
+				}
+				for i := 0; i < st.NumFields(); i++ {
+					f := st.Field(i)
+					if !strings.Contains(st.Tag(i), "json:") {
+						continue
+					}
+					ft := f.Type()
+					if p, isP := ft.(*types.Pointer); isP {
+						ft = p.Elem()
+					}
+					if _, isNamed := ft.(*types.Named); !isNamed {
+						walk(ft, label+"."+f.Name(), depth+1) // anonymous struct members
+					}
+					if !isFloatType(ft) {
+						continue
+					}
+					n++
+					key := "text/" + label + "." + f.Name()
+					var custom []string
+					for _, m := range []string{"MarshalJSON", "MarshalText", "UnmarshalJSON", "UnmarshalText"} {
+						for _, recv := range []types.Type{ft, types.NewPointer(ft)} {
+							if obj, _, _ := types.LookupFieldOrMethod(recv, true, pk.Types, m); obj != nil {
+								if _, isFn := obj.(*types.Func); isFn {
+									custom = append(custom, m)
+									break
+								}
+							}
+						}
+					}
+					if len(custom) > 0 {
+						c.Undecided("FLOAT", key, f.Pos(), "the amount field "+label+"."+f.Name()+" has type "+ft.String()+" with its own "+strings.Join(custom, ", ")+": the text of the amount is produced or read by hand-written formatting instead of encoding/json's float64 rendering, and whether every amount in 0..21e14 satoshis survives it is not decided")
+					} else {
+						c.OK("FLOAT", key, f.Pos(), "rendered and parsed by encoding/json as a plain "+ft.Underlying().String())
+					}
+				}
+			}
+			walk(tn.Type(), name, 0)
+		}
+	}
+	c.MinInstances("FLOAT/text", n, 1)
 }
